@@ -51,8 +51,11 @@ func init() {
 func init() {
 	props["C08"] = &propCfg{
 		id: "C08", level: "exploration", race: true, quickN: 3000, thoroughN: 150000, recycle: 300,
+		subProp: "C08P", subEvery: 5,
 		rule: "One episode = one seeded program assembled from fragments that touch shared constants, compiled functions, source and builtin modules, the file set and the formatter pool; either K=2..5 clones (incl. clones of clones, clones of an object that already ran) each driven by its own thread (Set inputs, Run/RunContext, GetAll, optionally ReplaceBuiltinModule), or 2-3 threads issuing Get/GetAll/IsDefined/Set/Run/RunContext/Clone/Size on ONE object; threads are interleaved per VM instruction and at lock sites by a burst-biased seeded tape. " +
-			"Race build: the simulator's hand-offs are invisible to the race detector and sync.Pools are drained at every context switch, so conflicting unsynchronised accesses are reported whatever the timing. A case is (shape | fragment set); non-trivial when the threads were actually interleaved (more context switches than twice the number of threads).",
+			"Race build: the simulator's hand-offs are invisible to the race detector and sync.Pools are drained at every context switch, so conflicting unsynchronised accesses are reported whatever the timing. A case is (shape | fragment set); non-trivial when the threads were actually interleaved (more context switches than twice the number of threads). " +
+			"Second phase (one episode per five, ordinary build, job property C08P): the clone workload with host objects whose String method is a scheduling point inside format calls, a small MaxStringLen so that formatter failure paths are taken, pools never emptied and made deterministic (one P, no GC during the episode): pooled objects may travel between threads. " +
+			"Oracle 0 in both phases: before and after the threads run, no two compiled objects reach the same array, map or captured-variable cell from their globals.",
 		assume: []string{
 			"happens-before analysis by the Go race detector (4 shadow cells per 8 bytes; history_size=2); a report requires both accesses to be executed in the episode",
 			"solo baselines and serial witnesses come from a separately compiled copy of the same source with freshly built inputs",
